@@ -286,6 +286,31 @@ Example c09_hostile_decoder_instance :
              toy_token (mkta 1 None (Some (true, 2%N))) None = Ok (toy_hdr, PDict [(asc "sub", PStr (asc "a"))]).
 Proof. exact hostile_decoder_instance. Qed.
 
+(* c09_decode_header_is_wire_header: the header jwt.decode returns is the JSON object of the
+   token's protected segment, for every key form (key, key set with one or several keys,
+   callable), every algorithms / registry / decoder_cls choice and both transports - GIVEN that
+   the transport functions hand back the parsed protected header of an accepted token (the
+   contract; the harness checks it on every recorded call: wire_contract in C09Cases.v).
+   In particular no kid can appear that the token does not carry. *)
+Theorem c09_decode_header_is_wire_header :
+  forall (json_loads : option N -> bytes -> res pv)
+         (jws_decode jwe_decode : bytes -> targs -> res (hdr * bytes))
+         (wire_header : bytes -> option hdr),
+    (forall tok a h p, jws_decode tok a = Ok (h, p) -> wire_header tok = Some h) ->
+    (forall tok a h p, jwe_decode tok a = Ok (h, p) -> wire_header tok = Some h) ->
+    forall tok a decoder_cls h v,
+      jwt_decode json_loads jws_decode jwe_decode tok a decoder_cls = Ok (h, v) ->
+      wire_header tok = Some h.
+Proof. exact api_decode_header_is_wire. Qed.
+
+(* non-vacuity: the toy transport hands back the header that the toy token carries *)
+Example c09_wire_header_instance :
+  (forall tok (a : targs) h p, (fun t (_ : targs) => toy_tdec t) tok a = Ok (h, p) ->
+     (fun t => if beqb t toy_token then Some toy_hdr else None) tok = Some h) /\
+  jwt_decode (fun _ => toy_loads) (fun t _ => toy_tdec t) (fun t _ => toy_tdec t)
+             toy_token (mkta 1 None None) None = Ok (toy_hdr, PDict []).
+Proof. exact wire_header_instance. Qed.
+
 (* integrity first, stated against the payload parser: with a failing transport
    no parser is consulted *)
 Theorem c09_integrity_independent_of_payload : forall jl1 jl2 td tok e,
@@ -348,4 +373,5 @@ Print Assumptions c09_integrity_first_any_options.
 Print Assumptions c09_header_unchanged_any_options.
 Print Assumptions c09_rt_any_options.
 Print Assumptions c09_default_encoder_is_instance.
+Print Assumptions c09_decode_header_is_wire_header.
 Print Assumptions c09_contracts_satisfiable.
